@@ -196,6 +196,16 @@ fn reading_lattice_build(s: TimeScale, leap: &[(i64, i64)]) -> Vec<i128> {
             base.push(sign * k - zs);
         }
     }
+    // binary and decimal thresholds of a 64-bit nanosecond count (2^63 ns after 1900 is 10 April 2192, 23:47:16.854775808), as a
+    // reading, as a TAI count and as a count from 1900-01-01 of the scale's own calendar: where an i64 / u64 / f64 short-cut
+    // of any of the three stops being exact
+    for thr in [1i128 << 53, 1 << 62, 1 << 63, 1 << 64, 1_000_000_000_000_000_000, 10_000_000_000_000_000_000] {
+        for sign in [1i128, -1] {
+            base.push(sign * thr);
+            base.push(sign * thr - zs);
+            base.push(sign * thr - z);
+        }
+    }
     for b in base {
         for d in [-NS_S, -1000, -3, -2, -1, 0, 1, 2, 3, 1000, NS_S] {
             let x = b + d;
